@@ -271,28 +271,32 @@ static void script_hash(void)
     for (i = 0; i < 12; i++) E[i].id = i;
     step_begin("hash resize(4)");
     SHIM_CALL(ab, cstl_hash_resize(&h, 4, hmod)); CHECK(!ab, "first resize aborted");
-    usable = h.bucket.count > 0;
-    if (!usable) { CHECK(fault_in_step(), "first resize failed without an allocation failure"); tr("resize(4)->noop "); step_begin("hash resize(4) retry"); SHIM_CALL(ab, cstl_hash_resize(&h, 4, hmod)); usable = h.bucket.count > 0; if (!usable) CHECK(fault_in_step(), "retry failed without an allocation failure"); }
+    /* whether a resize took effect is read off cstl_hash_load (size / bucket count the table is heading for; 0/0 = NaN before the first successful resize):
+     * how many allocations a resize makes, and what the private capacity is afterwards, is the library's business */
+    { float l0 = cstl_hash_load(&h); usable = l0 == l0; }
+    if (!usable) { CHECK(fault_in_step(), "first resize failed without an allocation failure"); tr("resize(4)->noop "); step_begin("hash resize(4) retry"); SHIM_CALL(ab, cstl_hash_resize(&h, 4, hmod)); { float l0 = cstl_hash_load(&h); usable = l0 == l0; } if (!usable) CHECK(fault_in_step(), "retry failed without an allocation failure"); }
     for (k = 0; k < 6 && !failed && usable; k++) {
-        size_t c0 = h.bucket.count, p0 = h.bucket.rh.hash ? h.bucket.rh.count : 0, cap0 = h.bucket.capacity; float ld;
+        float ld, ld0;
         for (i = 2 * k; i < 2 * k + 2; i++) { step_begin("hash insert"); SHIM_CALL(ab, cstl_hash_insert(&h, (size_t)E[i].id * 7, &E[i])); CHECK(!ab, "insert aborted"); in[i] = 1; }
         if (k == 3) { step_begin("hash erase"); SHIM_CALL(ab, cstl_hash_erase(&h, &E[1])); CHECK(!ab, "erase aborted"); in[1] = 0; }
         hash_all_found(&h, E, in, 12, "before resize");
-        c0 = h.bucket.count; p0 = h.bucket.rh.hash ? h.bucket.rh.count : 0; cap0 = h.bucket.capacity;
+        ld0 = cstl_hash_load(&h);
         step_begin("hash resize");
         SHIM_CALL(ab, cstl_hash_resize(&h, rs[k], hmod)); CHECK(!ab, "resize aborted");
         ld = cstl_hash_load(&h);
-        if (fault_in_step()) {
-            /* documented: quietly nothing happens, the table is undisturbed */
-            CHECK(h.bucket.capacity == cap0, "failed resize changed the capacity");
-            CHECK((h.bucket.rh.hash ? h.bucket.rh.count : h.bucket.count) == (p0 ? p0 : c0), "failed resize changed where the table is heading");
-            tr("resize(%zu)->noop ", rs[k]);
-        } else { int c = 0; for (i = 0; i < 12; i++) c += in[i]; CHECK(ld == (float)c / (float)rs[k], "after resize(%zu) load is %g", rs[k], (double)ld); }
+        { int c = 0; for (i = 0; i < 12; i++) c += in[i];
+          if (ld != (float)c / (float)rs[k]) {
+              /* the request did not take effect. documented: quietly nothing happens, the table is undisturbed - and only an allocation failure is a reason */
+              CHECK(fault_in_step(), "after resize(%zu) load is %g although no allocation failed", rs[k], (double)ld);
+              CHECK(ld == ld0, "a resize that did not take effect changed where the table is heading (load %g -> %g)", (double)ld0, (double)ld);
+              tr("resize(%zu)->noop ", rs[k]);
+          } }
         hash_all_found(&h, E, in, 12, "after resize");
         if (k == 2 || k == 4) {
-            size_t cap1 = h.bucket.capacity;
+            float l1 = cstl_hash_load(&h);
             step_begin("hash shrink_to_fit"); SHIM_CALL(ab, cstl_hash_shrink_to_fit(&h)); CHECK(!ab, "shrink_to_fit aborted");
-            if (fault_in_step()) { CHECK(h.bucket.capacity == cap1, "failed shrink changed the capacity"); tr("shrink->noop "); }
+            CHECK(cstl_hash_load(&h) == l1, "shrink_to_fit changed where the table is heading");
+            if (fault_in_step()) tr("shrink->noop ");
             hash_all_found(&h, E, in, 12, "after shrink_to_fit");
         }
     }
